@@ -465,3 +465,41 @@ package proxy
 //@   at-call drainQueuedLoginPluginMessages as drain: assert arg0 == c
 //@   at-call BufferPacket as send: assert [what-was-drained-is-sent] called(drain) && arg0 == serverMc
 //@   at-call Flush as fl: assert called(drain) && arg0 == serverMc
+
+// ---- C08: online-mode admission only after verified encryption and session auth -------------------------------------
+// A packet in the wrong login state closes the connection and does nothing else.
+//@ func (*initialLoginSessionHandler).assertState
+//@   props C08
+//@   at-call Close as cl: assert arg0 == l.conn && l.currentState != expectedState
+//@   ensures [state-must-match] result == (old(l.currentState) == expectedState) && (!result ==> called(cl))
+// Dispatch: only the three login packets are handled; anything else (unknown or unexpected) closes.
+//@ func (*initialLoginSessionHandler).HandlePacket
+//@   props C08
+//@   at-call KnownPacket as kp
+//@   at-call handleServerLogin as h1: assert called(kp) && res(kp) && dyntype(p.Packet, "packet.ServerLogin")
+//@   at-call handleLoginPluginResponse as h2: assert called(kp) && res(kp) && dyntype(p.Packet, "packet.LoginPluginResponse")
+//@   at-call handleEncryptionResponse as h3: assert called(kp) && res(kp) && dyntype(p.Packet, "packet.EncryptionResponse")
+//@   at-call Close as cl: assert arg0 == l.conn
+//@   ensures [anything-else-closes] called(kp) && (!res(kp) ==> called(cl) && !called(h1) && !called(h2) && !called(h3)) && (!called(h1) && !called(h2) && !called(h3) ==> called(cl))
+
+// The encryption response: accepted only in the "request sent" state, with a login and an issued token on record;
+// the client's token must verify against the ISSUED token (key signature over it, or RSA-decrypted equality), then
+// the shared secret is decrypted, encryption is enabled with exactly that secret, the server id is derived from it,
+// the session server is asked for that id and the client's user name, and only a confirmed online-mode answer with a
+// readable profile creates the (online-mode) auth session handler - with that profile and that server id.
+//@ func (*initialLoginSessionHandler).handleEncryptionResponse
+//@   props C08
+//@   at-call assertState as st: assert arg0 == l && arg1 == encryptionRequestSentLoginState
+//@   at-call VerifyDataSignature as sig: assert called(st) && res(st) && ref(arg1) == ref(resp.VerifyToken) && len(arg1) == len(resp.VerifyToken) && ref(arg2) == ref(l.verify) && len(arg2) == len(l.verify)
+//@   at-call Verify as tok: assert called(st) && res(st) && ref(arg1) == ref(resp.VerifyToken) && len(arg1) == len(resp.VerifyToken) && ref(arg2) == ref(l.verify) && len(arg2) == len(l.verify) && len(l.verify) != 0
+//@   at-call DecryptSharedSecret as dec: assert [token-verified-first] ((called(sig) && res(sig)) || (called(tok) && res(tok, 1) == nil && res(tok, 0))) && ref(arg1) == ref(resp.SharedSecret) && len(arg1) == len(resp.SharedSecret)
+//@   at-call EnableEncryption as enc: assert [encryption-with-the-decrypted-secret] called(dec) && res(dec, 1) == nil && arg0 == l.conn && ref(arg1) == ref(res(dec, 0)) && len(arg1) == len(res(dec, 0))
+//@   at-call GenerateServerID as sid: assert [server-id-from-that-secret] called(enc) && res(enc) == nil && ref(arg1) == ref(res(dec, 0)) && len(arg1) == len(res(dec, 0))
+//@   at-call AuthenticateJoin as join: assert [join-for-that-id-and-the-clients-name] called(sid) && res(sid, 1) == nil && streq(arg2, res(sid, 0)) && l.login != nil && streq(arg3, l.login.Username)
+//@   at-call OnlineMode as om: assert called(join) && res(join, 1) == nil && arg0 == res(join, 0)
+//@   at-call GameProfile as gp: assert called(om) && res(om) && arg0 == res(join, 0)
+//@   at-call newAuthSessionHandler as admit: assert [admitted-only-after-all-of-it] called(st) && res(st) && ((called(sig) && res(sig)) || (called(tok) && res(tok, 1) == nil && res(tok, 0))) && called(dec) && res(dec, 1) == nil && called(enc) && res(enc) == nil && called(sid) && res(sid, 1) == nil && called(join) && res(join, 1) == nil && called(om) && res(om) && called(gp) && res(gp, 1) == nil && arg1 == l.inbound && arg2 == res(gp, 0) && arg3 && streq(arg4, res(sid, 0))
+//@   at-call SetActiveSessionHandler as activate: assert called(admit) && arg0 == l.conn && arg2 == res(admit)
+//@   at-store currentState: assert called(st) && res(st) && value == encryptionResponseReceivedLoginState
+//@   ensures [wrong-state-or-repeat-admits-nobody] called(st) && (!res(st) ==> !called(admit) && !called(activate) && !called(dec) && !called(enc) && !called(join))
+//@   ensures [no-admission-without-a-confirmed-join] called(admit) == called(activate)
